@@ -89,20 +89,30 @@ def reducers_clause(model, rep, funcs):
             rep.instance("OVR", m.loc())
             rep.ob("OVR", m.anchor, f"`{m.short}` replaces the verified `{b.short}` only by delegating to it", False,
                    f"{m.short} re-implements {b.name} outside the rules that were checked on {b.short}", node=m.node, fn=m, clause="1 reducers", stmt=f"override {m.short}")
+    from ..domains.terms import T as _T, TermDomain as _TD, calls_of as _calls_of, strip as _strip, subterms as _subterms, callee_name as _cn
     for f in defs:
-        assigns = local_assignments(f)
-        rets = [r for r in walk_no_nested(f.node) if isinstance(r, ast.Return) and r.value is not None]
         rep.instance("SLOT.mean", f.loc())
-        ok = False
-        det = ""
-        for r in rets:
-            means = [c for c in ast.walk(r.value) if isinstance(c, ast.Call) and isinstance(c.func, ast.Attribute) and c.func.attr in ("mean", "sum", "median", "max")]
-            for c in means:
-                ax = kwarg(c, "axis") or (c.args[0] if c.args else None)
-                base = c.func.value
-                src_ok = isinstance(base, ast.Name) and any(isinstance(v, ast.Call) and ((isinstance(v.func, ast.Attribute) and v.func.attr in ("construct_dask", "rechunk"))) for v in assigns.get(base.id, []))
-                ok = c.func.attr == "mean" and ax is not None and norm_src(ax) == "0" and src_ok
-                det = f"reduces with `{norm_src(c)[:80]}`"
+        # decided on symbolic terms: the returned value, with value-preserving wrappers (asnumpy, compute, rechunk) removed, is mean(<stack>, axis=0) -
+        # spelled as a method or as da.mean / np.mean - of the loader's own construct_dask() stack
+        out = Interp(model, _TD(), depth=0).run(f, self_val=_T("param", ("self",)))
+        ok, det = None, f"returns {out!r}"[:200]
+        if isinstance(out, _T):
+            v = _strip(out, ext_wrappers=("asnumpy", "asarray", "compute", "float32"))
+            reducers = [c for c in _subterms(out) if _cn(c) in ("mean", "sum", "median", "max", "min", "nanmean", "average", "std")]
+            ok = False
+            det = f"value {v!r}"[:200]
+            if len(reducers) == 1 and reducers[0] == v and _cn(v) == "mean":
+                kw = dict(v.args[2])
+                if v.args[0].op == "attr":   # x.mean(axis=0)
+                    src_, axis = v.args[0].args[0], kw.get("axis", v.args[1][0] if v.args[1] else None)
+                else:                        # da.mean(x, axis=0)
+                    src_, axis = (v.args[1][0] if v.args[1] else None), kw.get("axis", v.args[1][1] if len(v.args[1]) > 1 else None)
+                stack = _strip(src_, ext_wrappers=("rechunk", "persist", "astype")) if src_ is not None else None
+                cds = _calls_of(stack, attr_name="construct_dask") if stack is not None else []
+                ok = axis == _T("const", ("0",)) and len(cds) == 1 and stack == cds[0] and cds[0].args[0].args[0] == _T("param", ("self",))
+                det = "" if ok else f"mean(axis={axis!r}) of {stack!r}"[:200]
+            elif len(reducers) != 1:
+                det = f"{len(reducers)} reductions in the returned value: {[_cn(c) for c in reducers]}"
         rep.ob("SLOT", f.anchor, "the average is mean(axis=0) of the full stack of loaded sub-tomograms", ok, det, node=f.node, fn=f, clause="1 reducers",
                stmt="def average reduce")
         # the stack is the loader's own construct_dask, rechunked along axis 0 only
@@ -161,7 +171,8 @@ def reducers_clause(model, rep, funcs):
     if f is not None:
         st = [c for c in calls_in(f) if (dotted(c.func) or "").endswith("stack")]
         rep.instance("SLOT.mean", f.loc())
-        ok = len(st) == 1 and Matcher(f).has("da.stack(self.construct_loading_tasks(output_shape, $$xp), axis=0)")
+        ok = len(st) == 1 and (Matcher(f).has("da.stack(self.construct_loading_tasks(output_shape, $$xp), axis=0)") or
+                               Matcher(f).has("da.stack(self.construct_loading_tasks(self._get_output_shape(output_shape), $$xp), axis=0)"))
         rep.ob("SLOT", f.anchor, "construct_dask stacks all loading tasks along a new axis 0", ok, norm_src(st[0])[:80] if st else "", node=f.node, fn=f,
                clause="1 reducers", stmt="def construct_dask")
 
